@@ -14,9 +14,10 @@ permutation representations), not proved (conf/C12.json, open_obligations).
 import DSymVerif.Proofs.Backtrack
 import DSymVerif.Proofs.LowIndex
 import DSymVerif.Proofs.LowIndexSound
+import DSymVerif.Proofs.Rebase
 
 namespace DSymVerif.C12
-open DSymVerif DSymVerif.Cosets DSymVerif.LowIndexP
+open DSymVerif DSymVerif.Cosets DSymVerif.LowIndexP DSymVerif.SpecC11 DSymVerif.SpecC12 DSymVerif.RebaseP
 
 /-- ✔ `backtrack_preorder` (generic, shared with C06/C07): for a search tree of finite
     height the model of `BackTrackIterator`, run with at least as much fuel as the tree has
@@ -61,8 +62,8 @@ theorem coset_tables_fuel_irrelevant (nrGens : Nat) (rels : List (List Int)) (ma
   BT.run_fuel_irrelevant _ (height maxRows) (children_decrease nrGens _ maxRows) f₁ f₂ h₁ h₂
 
 /-- ✔ `derived_table` only adds entries and fills the requested slot -/
-theorem derived_table_extends (t t' : Table) (rels : List (List Int)) (frm to : Nat) (g : Int)
-    (h : derivedTable t rels frm to g = .ok (some t')) :
+theorem derived_table_extends (t t' : Table) (rels : List (List Int)) (frm dst : Nat) (g : Int)
+    (h : derivedTable t rels frm dst g = .ok (some t')) :
     t'.nrGens = t.nrGens ∧ t'.part = t.part ∧
       (∀ c x, (∃ d, t.get c x = .ok (some d)) → ∃ d, t'.get c x = .ok (some d)) ∧
       t.get frm g = .ok none ∧ ∃ d, t'.get frm g = .ok (some d) := by
@@ -82,21 +83,21 @@ theorem derived_table_extends (t t' : Table) (rels : List (List Int)) (frm to : 
     `t[t[c][g]][−g] = c` wherever defined; `Ext2 t t'` = same generators, same partition and
     every defined entry of `t` is an entry of `t'` with the same value (nothing is
     overwritten).  The derived table extends its input, stays `Good`, and joins `frm` and
-    `to` under `g`. -/
-theorem derived_table_sound (t t' : Table) (rels : List (List Int)) (frm to : Nat) (g : Int)
-    (hg : Good t) (hgen : g ∈ t.allGens) (h : derivedTable t rels frm to g = .ok (some t')) :
-    Ext2 t t' ∧ Good t' ∧ t.get frm g = .ok none ∧ t.get to (-g) = .ok none ∧
-      t'.get frm g = .ok (some to) ∧ t'.get to (-g) = .ok (some frm) :=
+    `dst` under `g`. -/
+theorem derived_table_sound (t t' : Table) (rels : List (List Int)) (frm dst : Nat) (g : Int)
+    (hg : Good t) (hgen : g ∈ t.allGens) (h : derivedTable t rels frm dst g = .ok (some t')) :
+    Ext2 t t' ∧ Good t' ∧ t.get frm g = .ok none ∧ t.get dst (-g) = .ok none ∧
+      t'.get frm g = .ok (some dst) ∧ t'.get dst (-g) = .ok (some frm) :=
   derivedTable_some hg hgen h
 
 /-- ○ `derived_table_sound` (rejection branch): `None` only if a slot is already taken or,
     in some value-preserving inverse-consistent extension of the table with the new entry,
     a relator that is completely defined from some row closes on two different rows
     (`Conflict`). -/
-theorem derived_table_rejects_only_on_conflict (t : Table) (rels : List (List Int)) (frm to : Nat)
-    (g : Int) (hg : Good t) (h : derivedTable t rels frm to g = .ok none) :
-    (∃ d, t.get frm g = .ok (some d)) ∨ (∃ d, t.get to (-g) = .ok (some d)) ∨
-      ∃ t0, t.join frm to g = .ok t0 ∧ Ext2 t t0 ∧ Conflict t0 rels :=
+theorem derived_table_rejects_only_on_conflict (t : Table) (rels : List (List Int)) (frm dst : Nat)
+    (g : Int) (hg : Good t) (h : derivedTable t rels frm dst g = .ok none) :
+    (∃ d, t.get frm g = .ok (some d)) ∨ (∃ d, t.get dst (-g) = .ok (some d)) ∨
+      ∃ t0, t.join frm dst g = .ok t0 ∧ Ext2 t t0 ∧ Conflict t0 rels :=
   derivedTable_none hg h
 
 /-- ○ part of `extract_valid`: every table the search ever holds (every state reachable from
@@ -105,6 +106,36 @@ theorem search_states_inverse_consistent (nrGens : Nat) (rels : List (List Int))
     (t : Table)
     (hr : BT.Reach (btProblem nrGens rels maxRows) (.ok (Table.new nrGens)) (.ok t)) : Good t :=
   reachable_good hr
+
+/-- ○ `rebase_min_invariant`: the Spec's `canonicalForm` (minimum over all base points of
+    the BFS-renumbered table) is a complete invariant of a table up to isomorphism
+    (`TabIso t t' n σ`: `σ` is a bijection of the rows with `t'[σ c][g] = σ (t[c][g])` for
+    every letter): isomorphic tables have equal canonical forms, and tables with the same
+    canonical form `some m` are isomorphic.  No assumption on the tables (partial tables
+    included); for tables in which some base point reaches every row the form is `some _`. -/
+theorem rebase_min_invariant (t t' : Tab) (n : Nat) :
+    (∀ σ, TabIso t t' n σ → canonicalForm t' n = canonicalForm t n) ∧
+      (∀ m, canonicalForm t n = some m → canonicalForm t' n = some m → ∃ σ, TabIso t t' n σ) :=
+  ⟨fun _ iso => canonicalForm_iso iso, fun _ h h' => iso_of_canonicalForm_eq h h'⟩
+
+/-- ○ re-basing commutes with isomorphisms, and the renumbered table is isomorphic to the
+    original (the two facts behind `rebase_min_invariant`) -/
+theorem renumber_iso (t t' : Tab) (n : Nat) (σ : Nat → Nat) (iso : TabIso t t' n σ) (s : Nat)
+    (hs : s < t.size) :
+    renumberFrom t' n (σ s) = renumberFrom t n s ∧
+      ∀ u, renumberFrom t n s = some u → ∃ τ, TabIso t u n τ :=
+  ⟨renumberFrom_iso iso s hs, fun _ hu => ⟨_, (renum_of_some hs hu).iso_fwd⟩⟩
+
+/-! non-vacuity: every table is isomorphic to itself; the S3 action on the cosets of ⟨b⟩ has a
+    canonical form, shared by its re-based copy -/
+example (t : Tab) (n : Nat) : TabIso t t n id :=
+  ⟨rfl, fun _ h => h, fun _ _ _ _ h => h, fun c g _ => by simp⟩
+
+example : canonicalForm #[#[1, 0, 1, 0], #[0, 2, 0, 2], #[2, 1, 2, 1]] 2 =
+    canonicalForm #[#[1, 2, 1, 2], #[0, 1, 0, 1], #[2, 0, 2, 0]] 2 := by decide +kernel
+
+example : (canonicalForm #[#[1, 0, 1, 0], #[0, 2, 0, 2], #[2, 1, 2, 1]] 2).isSome = true := by
+  decide +kernel
 
 /-! non-vacuity: the empty table satisfies the invariant; the first derived table of the
     free group of rank 1 -/
